@@ -94,8 +94,17 @@ func (g *cfGen) gen2(depth int, inLoop, inSw bool) *cfStmt {
 	case k < 40:
 		return &cfStmt{kind: "seq", a: g.gen2(depth-1, inLoop, inSw), b: g.gen2(depth-1, inLoop, inSw)}
 	case k < 55:
+		if r.Intn(8) == 0 { // an empty then- or else-block
+			if r.Bool() {
+				return &cfStmt{kind: "ite", n: g.id(), a: &cfStmt{kind: "act"}, b: g.gen2(depth-1, inLoop, inSw)}
+			}
+			return &cfStmt{kind: "ite", n: g.id(), a: g.gen2(depth-1, inLoop, inSw), b: &cfStmt{kind: "act"}}
+		}
 		return &cfStmt{kind: "ite", n: g.id(), a: g.gen2(depth-1, inLoop, inSw), b: g.gen2(depth-1, inLoop, inSw)}
 	case k < 68:
+		if r.Intn(6) == 0 { // if c { }
+			return &cfStmt{kind: "ift", n: g.id(), a: &cfStmt{kind: "act"}}
+		}
 		return &cfStmt{kind: "ift", n: g.id(), a: g.gen2(depth-1, inLoop, inSw)}
 	case k < 76:
 		return &cfStmt{kind: "rng", n: g.id(), p: r.Intn(3), a: g.gen2(depth-1, true, false)}
@@ -141,7 +150,9 @@ func (s *cfStmt) src(sb *strings.Builder) {
 	}
 	switch s.kind {
 	case "act":
-		fmt.Fprintf(sb, "t(%d)\n", s.n)
+		if s.n != 0 { // act 0 is the empty statement (an empty block)
+			fmt.Fprintf(sb, "t(%d)\n", s.n)
+		}
 	case "seq":
 		s.a.src(sb)
 		s.b.src(sb)
@@ -222,16 +233,22 @@ func (s *cfStmt) proto(w *[]string, leaves map[string]bool) {
 	switch s.kind {
 	case "act":
 		*w = append(*w, "act", fmt.Sprint(s.n))
-		leaves[fmt.Sprintf("a%d", s.n)] = true
+		if s.n != 0 {
+			leaves[fmt.Sprintf("a%d", s.n)] = true
+		}
 	case "seq":
 		*w = append(*w, "seq")
 		s.a.proto(w, leaves)
 		s.b.proto(w, leaves)
 	case "ite", "ift":
-		*w = append(*w, s.kind, fmt.Sprint(s.n))
+		kind := s.kind
+		if kind == "ite" && s.b.kind == "act" && s.b.n == 0 {
+			kind = "ift" // compiler.go: an else block that compiles to nothing is no else block
+		}
+		*w = append(*w, kind, fmt.Sprint(s.n))
 		leaves[fmt.Sprintf("c%d", s.n)] = true
 		s.a.proto(w, leaves)
-		if s.kind == "ite" {
+		if kind == "ite" {
 			s.b.proto(w, leaves)
 		}
 	case "loop":
@@ -318,7 +335,9 @@ func (m *cfRun) cond(n int) bool {
 func (m *cfRun) exec(s *cfStmt) string { // "", "brk", "cont"
 	switch s.kind {
 	case "act":
-		m.trace = append(m.trace, fmt.Sprint(s.n))
+		if s.n != 0 {
+			m.trace = append(m.trace, fmt.Sprint(s.n))
+		}
 	case "seq":
 		if o := m.exec(s.a); o != "" {
 			return o
@@ -566,10 +585,14 @@ func (c *Ctx) c06One(s *cfStmt, sample bool) (lines, impl []string) {
 	}
 	// behaviour: native Go semantics vs goatlang, both optimizer settings
 	m := &cfRun{fuel: 25}
-	m.exec(s)
+	how := m.exec(s)
+	// the behaviour run gives the function a result (8 from a return inside the skeleton, 7 at its end), so
+	// that anything a statement leaves on the operand stack shows up in what the caller receives
+	m.trace = append(m.trace, map[bool]string{true: "8", false: "7"}[how == "ret"])
 	want := strings.Join(m.trace, "\n")
+	vbody := strings.ReplaceAll(body, "return\n", "return 8\n")
 	for _, opt := range []bool{false, true} {
-		got := evalMode(cfPrelude+"func w() {\n"+body+"}\nw()\n", opt)
+		got := evalMode(cfPrelude+"func w() int {\n"+vbody+"return 7\n}\nprintln(w())\n", opt)
 		c.Rep.Oracle["native-semantics"]++
 		exp := want
 		if exp != "" {
@@ -587,7 +610,7 @@ func (c *Ctx) c06One(s *cfStmt, sample bool) (lines, impl []string) {
 }
 
 func runC06(c *Ctx) error {
-	c.Rep.Rule = "control skeletons over the forms {simple statement, sequence, if/else, if, for with condition (with and without init/post), for {}, for k, v := range over slices of 0, 1 and 3 elements, tagless switch with 1..3 clauses and an optional default written at any position, tagged switch (tag evaluated once into the hidden slot, clauses with 1..3 values chained by OR), break, continue, return (bare or after a statement)} with a fuel guard at every loop head: all skeletons of depth <= 2 over a reduced alphabet plus random ones to depth 5; for each: the compiled function body (optimizer off and on) compared with the model's assembly, and the printed trace compared with a native interpreter of Go's semantics; plus Go-toolchain runs of generated programs with switch/range/return; distinct = distinct skeleton; non-trivial = contains a loop with break or continue"
+	c.Rep.Rule = "control skeletons over the forms {simple statement, sequence, if/else and if (also with empty blocks), for with condition (with and without init/post), for {}, for k, v := range over slices of 0, 1 and 3 elements, tagless switch with 1..3 clauses and an optional default written at any position, tagged switch (tag evaluated once into the hidden slot, clauses with 1..3 values chained by OR), break, continue, return (bare or after a statement)} with a fuel guard at every loop head: all skeletons of depth <= 2 over a reduced alphabet plus random ones to depth 5; for each: the compiled function body (optimizer off and on) compared with the model's assembly, and the printed trace compared with a native interpreter of Go's semantics; plus Go-toolchain runs of generated programs with switch/range/return; distinct = distinct skeleton; non-trivial = contains a loop with break or continue"
 	n := 300
 	if c.Thorough() {
 		n = 12000
